@@ -66,7 +66,9 @@ def swap2_points(tier, std=17):
     if tier == 'thorough':
         specs += [('small', 3, 'u64', 'std'), ('vector', 0, 'u16', 'amc'), ('fcv', 300, 'u16', 'amc'), ('small', 6, 'i32', 'amc')]
     elems = ['NTR', 'TRnc'] if tier == 'quick' else ['NTR', 'TRnc', 'TC', 'NTRtm', 'MoveOnly']
-    return [Point(gen.swap2_unit(e, specs, std=std), elem=e, E=gen.ELEMS[e], specs=specs) for e in elems]
+    pairs = [(('small', 4, 'u32', 'amc'), ('small', 6, 'u32', 'amc')), (('fcv', 4, 'u8', 'amc'), ('fcv', 8, 'u8', 'amc'))]
+    return [Point(gen.swap2_unit(e, specs, std=std), elem=e, E=gen.ELEMS[e], specs=specs) for e in elems] + \
+        [Point(gen.adl_swap_unit(e, pairs, std=std), elem=e, E=gen.ELEMS[e], specs=[x for p in pairs for x in p]) for e in elems]
 
 
 def flatset_points(tier, std=17, nonstd=True, ndebug=False, elems=None):
